@@ -328,8 +328,10 @@ def _run_duration(res, item):
         calls = {"n": 0}
         orig = sc.stepForward
 
-        def counted(orig=orig, calls=calls):
+        def counted(orig=orig, calls=calls, cap=expected_steps + 3):
             calls["n"] += 1
+            if calls["n"] > cap:  # a run that does not stop where it was asked to must not hang the check
+                raise RuntimeError(f"more than {cap} stepForward calls for a duration of {expected_steps} steps")
             return orig()
 
         sc.stepForward = counted
@@ -420,8 +422,10 @@ def _run_entry(res, item):
         calls = {"n": 0}
         orig = Scenario.stepForward
 
-        def counted(self, orig=orig, calls=calls):
+        def counted(self, orig=orig, calls=calls, cap=expected_steps + 3):
             calls["n"] += 1
+            if calls["n"] > cap:  # a run that does not stop where it was asked to must not hang the check
+                raise RuntimeError(f"more than {cap} stepForward calls for a duration of {expected_steps} steps")
             return orig(self)
 
         case = {"start": iso, "start_second": st.second, "step": step, "hours": hours, "D_seconds": str(dur),
@@ -527,6 +531,15 @@ def _run_host_tz(res, item):
                 try:
                     sc = scen.build(cfg)
                     start_dt = sc.clock.datetime_start
+                    left, step_fn = {"n": n + 3}, sc.stepForward
+
+                    def capped(left=left, step_fn=step_fn):
+                        left["n"] -= 1
+                        if left["n"] < 0:
+                            raise RuntimeError("more stepForward calls than the requested duration allows")
+                        return step_fn()
+
+                    sc.stepForward = capped
                     sc.propagateTo(getTargetJulianDate(sc.clock.julian_date_start, timedelta(seconds=n * step)))
                     epochs = sorted(sc.database.getData(Query(Epoch)), key=lambda e: e.julian_date)
                     got_iso = [e.timestampISO for e in epochs]
